@@ -166,6 +166,11 @@ fn main() {
         let line = line.unwrap();
         let w: Vec<&str> = line.split_whitespace().collect();
         if w.is_empty() || w[0].starts_with('#') { continue; }
+        let needs_slot = matches!(w[0], "next" | "bar" | "dibar" | "reset" | "clone" | "serde" | "display" | "debug" | "period" | "mult" | "sersize" | "serbytes");
+        if needs_slot && (w.len() < 2 || !slots.contains_key(w[1])) {
+            writeln!(out, "noslot").unwrap();
+            continue;
+        }
         let reply: String = match w[0] {
             "new" => {
                 let mut ps = vec![];
